@@ -66,7 +66,7 @@ Print Assumptions C10_gml_roundtrip.
     Adjacency ORDER is not claimed (networkx copy() re-inserts edges).  New hydrogens are numbered from max id + 1
     and all disappear again, so no renumbering remains.  Outside the domain (explicit H already present) the graph is
     not restored — those hydrogens are folded too (proof/C10_HRound.v: h_roundtrip_outside); the molecule and the
-    count are (C10_h_total_*). *)
+    count are (C10_h_total_explicit, C10_h_total_implicit). *)
 Theorem C10_h_roundtrip :
   forall g : gr, gwfb g = true -> no_H g = true ->
     let g' := h_to_implicit (h_to_explicit g None false) in
